@@ -629,7 +629,11 @@ func (c *Ctx) checkMapOrder(rule string) {
 		case len(rec) == 0:
 			// iterative form: a singly linked list can only be walked front to back
 			inLoop := loopOf(ap[0].Block()) != nil
-			c.check(inLoop, rule, "MapList", "head before tail", ap[0].Pos(), "the function is applied while walking the list front to back", "map over a list applies the function once only")
+			why := "map over a list applies the function once only"
+			if inLoop {
+				inLoop, why = c.appliedFrontToBack(ap[0])
+			}
+			c.check(inLoop, rule, "MapList", "head before tail", ap[0].Pos(), "the function is applied to the head of the pair the loop stands on, and the loop moves on by taking the tail: front to back", why)
 		default:
 			ok := true
 			for _, r := range rec {
@@ -676,6 +680,105 @@ func (c *Ctx) checkMapOrder(rule string) {
 		}
 		c.check(ok, rule, "MapArray", "ascending index", pos, "the function is applied to elements 0,1,2,… in that order", "map over an array does not visit the elements in ascending order")
 	}
+}
+
+// appliedFrontToBack: in a loop over a list, the value handed to Apply is the
+// Head of the pair a loop variable holds, and that variable moves on to the
+// pair's Tail; or it is an element of a slice taken at an index that starts at
+// 0 and goes up.
+func (c *Ctx) appliedFrontToBack(ap ssa.CallInstruction) (bool, string) {
+	headF, tailF := c.field("SexpPair", "Head"), c.field("SexpPair", "Tail")
+	call, ok := ap.(*ssa.Call)
+	if !ok || headF == nil || tailF == nil {
+		return false, "the call that applies the function is not an ordinary call"
+	}
+	args := variadicLiteral(call.Call.Args[len(call.Call.Args)-1])
+	if len(args) != 1 {
+		return false, "the arguments handed to the function are not a one-element literal: the order of application cannot be read off"
+	}
+	v := args[0]
+	pairOf := func(x ssa.Value) ssa.Value { // the variable a pair value was taken from
+		for depth := 0; depth < 5; depth++ {
+			switch y := x.(type) {
+			case *ssa.TypeAssert:
+				x = y.X
+			case *ssa.Extract:
+				x = y.Tuple
+			default:
+				return x
+			}
+		}
+		return x
+	}
+	if u, isLoad := v.(*ssa.UnOp); isLoad && u.Op == token.MUL {
+		switch a := u.X.(type) {
+		case *ssa.FieldAddr:
+			if faField(a) != headF {
+				return false, "the value applied is not the head of a pair"
+			}
+			loopVar, isPhi := pairOf(a.X).(*ssa.Phi)
+			if !isPhi {
+				return false, "the pair whose head is applied is not the loop's current pair"
+			}
+			for _, e := range loopVar.Edges {
+				if eu, ok := e.(*ssa.UnOp); ok && eu.Op == token.MUL {
+					if efa, ok := eu.X.(*ssa.FieldAddr); ok && faField(efa) == tailF && pairOf(efa.X) == ssa.Value(loopVar) {
+						return true, ""
+					}
+				}
+			}
+			return false, "the loop does not move on by taking the tail of the pair whose head it applied the function to"
+		case *ssa.IndexAddr:
+			starts := false
+			for _, leaf := range phiLeavesThroughAdd(a.Index) {
+				if k, isK := constIntOf(leaf); isK && k == 0 {
+					starts = true
+				}
+			}
+			if starts && ascending(a.Index) {
+				return true, ""
+			}
+			return false, "the function is applied to collected elements at an index that does not start at 0 and go up: side effects run out of order (back to front), and the error reported is not the first failing element's"
+		}
+	}
+	return false, "the value the function is applied to is neither the head of the loop's current pair nor a collected element at an ascending index"
+}
+
+// variadicLiteral: the values stored into the array behind a slice literal.
+func variadicLiteral(v ssa.Value) []ssa.Value {
+	sl, ok := v.(*ssa.Slice)
+	if !ok {
+		return nil
+	}
+	al, ok := sl.X.(*ssa.Alloc)
+	if !ok || al.Referrers() == nil {
+		return nil
+	}
+	byIdx := map[int64]ssa.Value{}
+	max := int64(-1)
+	for _, r := range *al.Referrers() {
+		ia, ok := r.(*ssa.IndexAddr)
+		if !ok || ia.Referrers() == nil {
+			continue
+		}
+		idx, ok := constIntOf(ia.Index)
+		if !ok {
+			continue
+		}
+		for _, r2 := range *ia.Referrers() {
+			if st, ok := r2.(*ssa.Store); ok {
+				byIdx[idx] = st.Val
+				if idx > max {
+					max = idx
+				}
+			}
+		}
+	}
+	var out []ssa.Value
+	for i := int64(0); i <= max; i++ {
+		out = append(out, byIdx[i])
+	}
+	return out
 }
 
 func phiLeavesThroughAdd(v ssa.Value) []ssa.Value {
